@@ -3,4 +3,4 @@
 Everything here runs the *real* rxsci / RxPY code of /repo's working tree in
 one process under a seeded scheduler; see /verif/DESIGN.md.
 """
-GEN_VERSION = 1
+GEN_VERSION = 2
